@@ -37,3 +37,8 @@ Fixpoint join_flat (sep : flat_text) (items : list flat_text) : flat_text :=
   | [x] => x
   | x :: r => x ++ sep ++ join_flat sep r
   end.
+
+(* s[i] for an int i: the element, or None where Python raises IndexError *)
+Definition pyindex {X} (l : list X) (i : Z) : option X :=
+  let n := Z.of_nat (length l) in
+  if ((- n <=? i) && (i <? n))%Z then nth_error l (Z.to_nat (if (i <? 0)%Z then n + i else i)) else None.
